@@ -304,19 +304,22 @@ impl Database {
 
     /// Runs WAL recovery to restore database to consistent state.
     fn run_recovery(&self) -> DatabaseResult<()> {
-        let (tx_ctx, logger) = Self::begin_transaction(
-            self.coordinator.clone(),
-            self.pager.clone(),
-            self.catalog.clone(),
-        )?;
-        let child = tx_ctx.create_child()?;
         let pager = self.pager.clone();
-        // Begin a recovery transaction
-        self.task_runner.run(move |ctx| {
-            let mut recuperator = WalRecuperator::new(child, logger.clone());
-
-            // Run analysis INSIDE the closure using the cloned pager
+        let coordinator = self.coordinator.clone();
+        let catalog = self.catalog.clone();
+        self.task_runner.run(move |_ctx| {
+            // The log is read BEFORE the recovery transaction appends its own BEGIN record to it:
+            // that record opens a block that is not on disk yet, and an analysis that counts it
+            // reads past the end of the log file (a log of more than one block could not be
+            // recovered: "failed to fill whole buffer" on every open).
             let analysis = pager.write().run_analysis().map_err(box_err)?;
+
+            // Begin a recovery transaction
+            let (tx_ctx, logger) =
+                Self::begin_transaction(coordinator.clone(), pager.clone(), catalog.clone())
+                    .map_err(box_err)?;
+            let child = tx_ctx.create_child().map_err(box_err)?;
+            let mut recuperator = WalRecuperator::new(child, logger.clone());
 
             // Run recovery through recuperator
             recuperator.run_recovery(&analysis).map_err(box_err)?;
